@@ -1,3 +1,4 @@
+import ZvbiModel.Mux.PesShape
 import ZvbiModel.Mux.RawGen
 import ZvbiModel.Mux.LemmasFeed
 /-!
@@ -123,7 +124,8 @@ theorem generatePesR_ok (keep : Bool) (cfg : Cfg) (hc : CfgOK cfg) (st : RawSt) 
         sentR mask (raw.getD []) (sp.getD dfltSp) lines⟩ ∧ ∀ u ∈ us, u.id ≠ 0xFF → u.payload.length ≤ 255)
     ∧ pes.length % 184 = 0 ∧ cfg.minSize ≤ pes.length ∧ pes.length ≤ cfg.maxSize
     ∧ (∀ s ∈ lines, s.id &&& mask ≠ 0 → PermittedAny raw sp s) ∧ st'.left = 0 := by
-  unfold generatePesR at hg
+  rw [generatePesR_both] at hg
+  unfold generatePesRBoth at hg
   have hnl : ¬ st.left > 0 := by omega
   simp only [hnl, if_false] at hg
   cases hgl : genLoopR keep mask (fixedLengthFormat cfg.dataId) raw sp (lines.length + 1) (cfg.maxSize - 46) 0 0 st lines with
@@ -433,7 +435,8 @@ theorem generatePesR_completes (cfg : Cfg) (hc : CfgOK cfg) (st : RawSt) (hst : 
   have h1 := H.enc
   have hmin := hc.min184; have hmm := hc.minmax; have hmax := hc.max
   have hminMod := hc.minMod; have hmaxMod := hc.maxMod
-  unfold generatePesR
+  rw [generatePesR_both]
+  unfold generatePesRBoth
   have hnl : ¬ st.left > 0 := by omega
   simp only [hnl, if_false, hgl]
   generalize hpl0 : (if 46 + out.length < cfg.minSize then cfg.minSize - (46 + out.length)
